@@ -101,7 +101,9 @@ class Gen:
             stub_frac=0.3,
             n_events=(4, 16),
             partial_frac=0.3,
-            clone_frac=0.0,             # probability of a clone event per step
+            clone_frac=0.06,            # probability of a clone event per step (calls then go through any live instance)
+            other_frac=0.06,            # probability that a call is made on another thread
+            new_unwinding_frac=0.04,    # the mock is constructed by cleanup code while its thread unwinds
             max_count=3,
             max_segments=3,
             nomatcher_frac=0.02,
@@ -247,7 +249,10 @@ class Gen:
                 continue
             mid = rng.choice(mentioned) if mentioned and rng.random() < 0.85 else rng.choice(call_mids)
             arg = fav_arg if rng.random() < 0.5 else rng.randrange(NARGS)
-            evs.append({"base": ("call", rng.choice(live), mid, arg)})
+            e = {"base": ("call", rng.choice(live), mid, arg)}
+            if rng.random() < self.k["other_frac"]:
+                e["other"] = True
+            evs.append(e)
         if rng.random() < self.k["nvid_frac"]:
             evs.insert(rng.randint(0, len(evs)), {"base": ("nvid", 0)})
         # dispose: clones first, then the original
@@ -264,8 +269,11 @@ class Gen:
     def case(self):
         self.tag = 0
         terms = self.terms()
-        return {"partial": self.rng.random() < self.k["partial_frac"], "terms": terms,
-                "events": self.events(terms)}
+        c = {"partial": self.rng.random() < self.k["partial_frac"], "terms": terms,
+             "events": self.events(terms)}
+        if self.rng.random() < self.k["new_unwinding_frac"]:
+            c["new_unwinding"] = True
+        return c
 
 
 # ------------------------------------------------------------ shrinking
